@@ -23,10 +23,10 @@ Last(q) == q[Len(q)]
 
 R0 == [isInt |-> FALSE, per |-> FALSE, lo |-> NoAtom, hi |-> NoAtom, cl |-> NoAtom, fl |-> NoAtom,
        clv |-> 0, flv |-> 0, remLo |-> NoAtom, remHi |-> NoAtom, fac |-> NoFac,
-       xa |-> <<>>, xr |-> <<>>, xv |-> <<>>, yx |-> <<>>]
+       xa |-> <<>>, xr |-> <<>>, xv |-> <<>>, yx |-> <<>>, em |-> <<>>]
 
 \* points of R from a sequence of values, all exact
-WithPts(r, q) == [r EXCEPT !.xa = q, !.xr = q,
+WithPts(r, q) == [r EXCEPT !.xa = q, !.xr = q, !.em = [i \in 1..Len(q) |-> 0],
                            !.xv = IF r.isInt /\ ~r.per THEN [i \in 1..Len(q) |-> XV(q[i])] ELSE <<>>,
                            !.yx = IF r.isInt /\ ~r.per THEN [i \in 1..Len(q) |-> TRUE] ELSE <<>>]
 
@@ -41,14 +41,14 @@ ClipStep ==
 
 PeriodStep ==
   /\ pc = "clipped" /\ pc' = "approx" /\ UNCHANGED expect
-  /\ \E rl \in 0..1, ru \in (HMax - 1)..HMax, fLo \in -1..0, w \in 1..2, dl \in 0..1, dh \in 0..1 :
+  /\ \E rl \in 0..1, ru \in (HMax - 1)..HMax, fLo \in -1..0, w \in 1..2, dl \in 0..1, dh \in 0..1, pe \in {0, ErrLimit} :
        LET cHi == fLo + w
            nlo == fLo + 1 - dl
            nhi == cHi - 1 + dh
        IN /\ rl < ru /\ nlo <= nhi
           /\ R' = WithPts([R EXCEPT !.per = TRUE, !.remLo = At(rl), !.remHi = At(ru),
                                     !.fac = [Lpos |-> TRUE, integral |-> TRUE, nlo |-> nlo, nhi |-> nhi,
-                                             fLo |-> fLo, cHi |-> cHi]], <<rl>>)
+                                             fLo |-> fLo, cHi |-> cHi, pem |-> pe]], <<rl>>)
 
 NonPeriodicStep ==
   /\ pc = "clipped" /\ pc' = "approx" /\ UNCHANGED expect
@@ -60,7 +60,10 @@ ApproxStep ==
   /\ pc = "approx" /\ UNCHANGED expect
   /\ IF Last(R.xa) = Target THEN pc' = "approximated" /\ UNCHANGED R
      ELSE /\ pc' = pc
-          /\ \E p \in H : Last(R.xa) < p /\ p <= Target /\ R' = WithPts(R, Append(R.xa, p))
+          \* the step is accepted with a measured deviation anywhere up to the limit
+          /\ \E p \in H, e \in {0, ErrLimit} :
+                /\ Last(R.xa) < p /\ p <= Target
+                /\ R' = [WithPts(R, Append(R.xa, p)) EXCEPT !.em = Append(R.em, e)]
 
 \* ConsiderIntegrality: N integers in the domain, N <= number of breakpoints
 ShortcutStep ==
@@ -72,7 +75,7 @@ ShortcutStep ==
 
 Drop(q, i) == [j \in 1..Len(q) - 1 |-> IF j < i THEN q[j] ELSE q[j + 1]]
 Ins(q, i, v) == [j \in 1..Len(q) + 1 |-> IF j < i THEN q[j] ELSE IF j = i THEN v ELSE q[j - 1]]
-WithX(r, q) == [r EXCEPT !.xa = q, !.xr = q,
+WithX(r, q) == [r EXCEPT !.xa = q, !.xr = q, !.em = [i \in 1..Len(q) |-> 0],
                          !.xv = IF WantInt(r) THEN [i \in 1..Len(q) |-> XV(q[i])] ELSE <<>>,
                          !.yx = IF WantInt(r) THEN [i \in 1..Len(q) |-> TRUE] ELSE <<>>]
 
@@ -101,6 +104,10 @@ Corrupt ==
         /\ OnePerInteger(R) /\ n >= 1
         /\ R' = [R EXCEPT !.xv = [i \in 1..n |-> R.xv[i] + 1]]
         /\ expect' = "shortcut"
+     \/ \* a step accepted although the deviation on it exceeds the tolerance
+        /\ \E i \in 1..n : R' = [R EXCEPT !.em[i] = ErrLimit + 1] /\ expect' = "err"
+     \/ \* the reduction to the remainder range is off (shifted period, wrong remainder end)
+        /\ R.per /\ R' = [R EXCEPT !.fac.pem = ErrLimit + 1] /\ expect' = "perr"
      \/ \* factor range misses the first / last needed period, or is not integral
         /\ R.per
         /\ \/ R' = [R EXCEPT !.fac.nlo = R.fac.fLo + 2, !.fac.nhi = R.fac.fLo + 3]
